@@ -377,6 +377,10 @@ func (v *Validator) DecodeRLP(s *rlp.Stream) error {
 	v.Delegations = r.Delegations
 	v.Ext = r.Ext
 
+	if r.Expelled > 1 {
+		// the encoder writes 0 or 1 only; any other byte used to be read as "not expelled"
+		return fmt.Errorf("invalid expelled flag %d in validator record", r.Expelled)
+	}
 	if r.Expelled == 1 {
 		v.Expelled = true
 	}
